@@ -124,7 +124,7 @@ impl Controller for FormMultipartEnctypePostMethodController {
                 return response;
             }
             let content_disposition = boxed_content_disposition.unwrap();
-            let formatted_output = format!("{} is {} {}", content_disposition.field_name.unwrap(), String::from_utf8_lossy(&part.body), SYMBOL.new_line_carriage_return);
+            let formatted_output = format!("{} is {} {}", content_disposition.field_name.unwrap_or_default(), String::from_utf8_lossy(&part.body), SYMBOL.new_line_carriage_return);
             formatted_list.push(formatted_output);
         }
 
@@ -258,7 +258,7 @@ impl FormMultipartEnctypePostMethodController {
                 return response;
             }
             let content_disposition = boxed_content_disposition.unwrap();
-            let formatted_output = format!("{} is {} {}", content_disposition.field_name.unwrap(), String::from_utf8_lossy(&part.body), SYMBOL.new_line_carriage_return);
+            let formatted_output = format!("{} is {} {}", content_disposition.field_name.unwrap_or_default(), String::from_utf8_lossy(&part.body), SYMBOL.new_line_carriage_return);
             formatted_list.push(formatted_output);
         }
 
